@@ -115,7 +115,11 @@ pub struct NormalGateState {
     /// Sender to our command receiver. Cloned when creating a clone of this
     /// Gate so that the cloned Gate can notify us when it is dropped. Only
     /// root Gates have this set, not their clones (if any).
-    command_sender: mpsc::Sender<GateCommand>,
+    ///
+    /// Shared with the clones and replaced when the gate is reconfigured:
+    /// the gate then reads commands from the channel of the new gate, so
+    /// that is where clones have to attach and detach themselves.
+    command_sender: Arc<Mutex<mpsc::Sender<GateCommand>>>,
 
     /// Senders for propagating received commands to clones of this Gate.
     clone_senders: Arc<FrimMap<Uuid, mpsc::Sender<GateCommand>>>,
@@ -127,7 +131,8 @@ pub struct CloneGateState {
     clone_id: Uuid,
 
     /// A sender for sending commands to the parent of a clone, e.g. detach.
-    parent_command_sender: mpsc::Sender<GateCommand>,
+    /// (The parent's slot: it follows the parent through a reconfiguration.)
+    parent_command_sender: Arc<Mutex<mpsc::Sender<GateCommand>>>,
 }
 
 #[derive(Debug)]
@@ -232,7 +237,7 @@ impl Gate {
             suspended: Default::default(),
             metrics: Default::default(),
             state: GateState::Normal(NormalGateState {
-                command_sender: tx.clone(),
+                command_sender: Arc::new(Mutex::new(tx.clone())),
                 clone_senders: Default::default(),
             }),
             tracer: None,
@@ -255,13 +260,23 @@ impl Gate {
     /// For internal use only, hence not public.
     fn take(
         self,
-    ) -> (mpsc::Receiver<GateCommand>, FrimMap<Uuid, UpdateSender>) {
+    ) -> (
+        mpsc::Receiver<GateCommand>,
+        FrimMap<Uuid, UpdateSender>,
+        Option<mpsc::Sender<GateCommand>>,
+    ) {
         let commands = self.commands.clone();
         let updates = self.updates.clone();
+        let command_sender = match &self.state {
+            GateState::Normal(state) => {
+                Some(state.command_sender.lock().unwrap().clone())
+            }
+            GateState::Clone(_) => None,
+        };
         drop(self);
         let commands = Arc::try_unwrap(commands).unwrap().into_inner();
         let updates = Arc::try_unwrap(updates).unwrap();
-        (commands, updates)
+        (commands, updates, command_sender)
     }
 
     pub fn id(&self) -> Uuid {
@@ -306,6 +321,8 @@ impl Gate {
                     self.id()
                 );
             }
+            let parent_command_sender =
+                parent_command_sender.lock().unwrap().clone();
             if let Err(_err) = parent_command_sender
                 .send(GateCommand::DetachClone {
                     clone_id: *clone_id,
@@ -339,6 +356,8 @@ impl Gate {
                     self.id()
                 );
             }
+            let parent_command_sender =
+                parent_command_sender.lock().unwrap().clone();
             if let Err(_err) = parent_command_sender.blocking_send(
                 GateCommand::DetachClone {
                     clone_id: *clone_id,
@@ -508,8 +527,24 @@ impl Gate {
                     // take() because just destructuring the Gate struct
                     // causes compilation failure because the Gate innards
                     // can't be moved out when Gate has a Drop impl.
-                    let (new_commands, new_updates) = new_gate.take();
+                    let (new_commands, new_updates, new_command_sender) =
+                        new_gate.take();
                     *self.commands.write().await = new_commands;
+                    // From here on we listen to the command channel of the
+                    // new gate: clones made from now on (and the existing
+                    // ones when they detach) must reach us there. Keeping
+                    // the sender of the old channel, whose receiver has
+                    // just been dropped, made every later clone fail to
+                    // attach and see its own command channel closed, i.e.
+                    // terminate at once.
+                    if let (
+                        GateState::Normal(state),
+                        Some(new_command_sender),
+                    ) = (&self.state, new_command_sender)
+                    {
+                        *state.command_sender.lock().unwrap() =
+                            new_command_sender;
+                    }
                     self.updates.replace(new_updates);
                     self.notify_clones(GateCommand::FollowReconfigure {
                         new_config: new_config.clone(),
@@ -910,6 +945,8 @@ impl Clone for Gate {
         let copied_id = self.id();
         crate::tokio::spawn("gate-attach-clone", async move {
             let saved_clone_id = clone_id;
+            let parent_command_sender =
+                parent_command_sender.lock().unwrap().clone();
             if let Err(_err) = parent_command_sender
                 .send(GateCommand::AttachClone { clone_id, tx })
                 .await
